@@ -6,6 +6,7 @@ import numpy as np
 import pandas as pd
 import scipy.sparse as sp
 import warnings
+import copy
 import time
 import scipy.optimize as opt
 from numbers import Real
@@ -3185,7 +3186,7 @@ class PWConstr:
         pieces = []
         for piece in self.pieces:
             if isinstance(piece, (DecLinConstr, DecBounds, RoConstr)):
-                pieces.append(piece.forall(*args))
+                pieces.append(copy.copy(piece.forall(*args)))
             else:
                 pieces.append(piece)
 
